@@ -242,8 +242,12 @@ func (lex *Lexer) call(state int, fnext int) {
 
 func (lex *Lexer) ret(n int) {
 	if lex.top < n {
-		// nothing to return to (unmatched '}'): stay in the current state
+		// nothing to return to (unmatched '}'): carry on in the php scanner.
+		// lex.cs must be set: the generated action does not store the state
+		// before it calls ret, so lex.cs may still hold a state from inside
+		// a look-ahead that ran to the end of the input.
 		lex.top = 0
+		lex.cs = lexer_en_php
 		lex.p++
 		return
 	}
